@@ -645,7 +645,8 @@ def alphabet(params, derived, priors=('U', 'LU', 'G'), errors='few', updates=('v
     if errors:
         ops += [['enable_fit', 'nope'], ['set_prior', 'nope', 'U'], ['update_model', 'badlen']]
     if spelled:
-        ops += [['set_mode', p, m] for p in params for m in ('Log', 'LINEAR')]
+        # ... and a spelling that is no mode at all: an error that must leave the parameter as it was
+        ops += [['set_mode', p, m] for p in params for m in ('Log', 'LINEAR', 'cubic')]
     if errors == 'all':
         ops += [['disable_fit', 'nope'], ['set_mode', 'nope', 'log'], ['set_boundary', 'nope', 'b1'],
                 ['set_factor_boundary', 'nope', 'f1'], ['enable_derived', 'nope'], ['disable_derived', 'nope'],
